@@ -1327,13 +1327,21 @@ def run(chk):
                        "documents: replaceEmbeddedFile with a new file spec, with the same helper twice, get -> put back, get -> setDescription/setFilename -> "
                        "put back, removeEmbeddedFile, copyForeignObject of every attachment of the second document under a prefix (once and repeatedly), "
                        "QPDFWriter write + re-read; after every call the keys (document helper, fresh helper, getEmbeddedFile), payload bytes, /Size, checksum, "
-                       "dates, MIME type, description and file names against the extracted att_hist_run; non-trivial = history with >= 2 self-replacing calls")
+                       "dates, MIME type, description and file names against the extracted att_hist_run; non-trivial = history with >= 2 self-replacing calls. "
+                       "namecmp: NNTreeImpl::compareKeys (direct call, and through find on one-entry trees) on all ordered pairs of generated sets of stored "
+                       "strings in every spelling (PDFDoc incl. 0x18-0x1f/0x7f-0xa0/0xad, UTF-16BE/LE marks, odd lengths, unpaired surrogates, UTF-8 mark with "
+                       "valid/invalid payloads, near-marks, prefixes, NUL, one text in several spellings) = extracted nk_compare_names/nk_utf8_value; = order of the "
+                       "texts per ISO 32000-2 7.9.2.2/Annex D where ISO gives a text; total-preorder laws on every set; non-trivial = distinct set of texts. "
+                       "nameraw: histories on name trees whose stored keys use every spelling, API = extracted model on the stored strings with the modelled "
+                       "compareKeys (structural) = sorted map over texts. namerepair: validate(true) on such trees (swapped, shuffled, one text twice in one or two "
+                       "spellings, sorted byte-wise) = valid tree of the sorted map over texts = the model's rebuild; non-trivial = tree that had to be rebuilt")
     part_exhaustive(chk, drv, runner)
     part_random(chk, drv, runner)
     part_large(chk, drv, runner)
     part_repair(chk, drv, runner)
     c18_names.part_namecmp(chk, drv, runner)
     c18_names.part_nameraw(chk, drv, runner, sys.modules[__name__])
+    c18_names.part_namerepair(chk, drv, runner, sys.modules[__name__])
     part_attach(chk)
     part_attach_api(chk, drv, runner)
 
